@@ -62,7 +62,19 @@ RULE = ("connected Bayesian networks (random DAGs, the fill-in shapes A>B>C>D,A>
         "models must be refused by the constructor; "
         "L orders - insertion order of nodes, edges, CPDs and factors is shuffled per model, query and evidence order "
         "per call, hash seeds per tier; "
-        "M budget - handled by tools/check.py.  "
+        "M budget - handled by tools/check.py; "
+        "N equal-not-identical arguments - every name and state handed to query / map_query / virtual evidence is rebuilt "
+        "at run time (new str, tuple, int objects); node names and state names above 256 ('bigint', 'big' styles); "
+        "O containers - the variables argument as list, tuple and set (the types BeliefPropagation._query accepts; other "
+        "iterables are wrapped as ONE variable by pgmpy - documented type is list - and are not generated); "
+        "P mid sizes - 9..12 node Bayesian networks (8..11 cliques; the model's answers are compared with the exact "
+        "brute force computed by the harness), a variable with 257 states; "
+        "Q not exactly normalised tables - Bayesian networks whose CPD columns are typed with two decimals and sum to "
+        "0.99..1.01: BP must equal the normalised product of the CPDs as given (VariableElimination's pruning assumes "
+        "normalised columns and is not used as a reference there); "
+        "R combinations - virtual evidence x joint in {True, False} x hard evidence in {none, some (on a root when "
+        "possible)} for BP and VE with return TYPE and every marginal checked, virtual evidence x map_query, virtual "
+        "evidence x torch, heuristics x evidence.  "
         "A case is non-trivial when the tree has >=2 cliques and at least one query has evidence; distinct = distinct "
         "(model, hash seed, backend)")
 TRUSTED_BASE = ["junction-tree CONSTRUCTION (triangulation, cliques, spanning tree, factor assignment) is taken as "
@@ -313,7 +325,7 @@ def gen_rowstoch(rng):
 
 
 def gen_long(rng):
-    """mid-sized models: a chain or a random tree-shaped Bayesian network on 9..12 binary/ternary nodes (8..11 cliques;
+    """mid-sized models: a chain or a random tree-shaped Bayesian network on 9..12 binary nodes (8..11 cliques;
     9 = 1 mod 8), occasionally with one extra parent"""
     n = rng.choice([9, 9, 10, 11, 12])
     order = list(range(n))
@@ -322,7 +334,7 @@ def gen_long(rng):
     for i in range(1, n):
         p = order[i - 1] if rng.random() < 0.6 else order[rng.randrange(i)]
         edges.append((p, order[i]))
-    cards = [rng.choice([2, 2, 2, 3]) for _ in range(n)]
+    cards = [2] * n
     factors = []
     for v in range(n):
         pa = [a for (a, b) in edges if b == v]
@@ -849,8 +861,11 @@ def cal_check(bp, cx, ops=(("sum", "c02_calibrate", "calibrate"), ("max", "c02_m
         return bad("impl!=spec:clique-potential-state-names", {"error": str(e), "at": label}, key=key, tags=tags), None
     req = [cards, [[vid[v] for v in c] for c in cliques], edges, adj, pots]
     for op, entry, meth in ops:
-        rep = cx.drv.call(entry, req)
+        rep = cx.drv.call(entry + ("_lite" if cx.lite else ""), req)
         jt_ok, sched_ok, conv, mbel, msep, bbel, bsep = rep
+        if cx.lite:     # mid-sized model: the exact brute force is computed here, not by the model
+            bbel = [[F2(x) for x in brute_table(joint, cards, [vid[v] for v in c], op=op)] for c in cliques]
+            bsep = [[F2(x) for x in brute_table(joint, cards, msep[k][0], op=op)] for k in range(len(edges))]
         if not sched_ok:
             return bad("checker:sched_chk", {"cliques": req[1], "edges": edges, "adj": adj}, key=key, tags=tags), None
         if bool(jt_ok) != bool(rip):
@@ -935,8 +950,10 @@ def query_check(bp, cx, Q, ev, jointflag, ve=None, label="", model_side=True, ev
         except StateNameMismatch as e:
             return bad("impl!=spec:clique-potential-state-names", {"error": str(e), "at": label}, key=key, tags=tags)
         req2 = [cards, [[vid[v] for v in c] for c in cl2], ed2, adj2, pots2, Q, [[v, s] for v, s in ev.items()]]
-        cert, mtab, mper, mbrute, msub = cx.drv.call("c02_query", req2)
+        cert, mtab, mper, mbrute, msub = cx.drv.call("c02_query_lite" if cx.lite else "c02_query", req2)
         mtab = fr(mtab)
+        if cx.lite:
+            mbrute = [F2(x) for x in bt]
         if not cert:
             return bad("checker:query-certificate", dict(detail, sub=msub), key=key, tags=tags)
         if (not close_tab([float(x) for x in fr(mbrute)], bt)) if cx.sloppy else (fr(mbrute) != bt):
@@ -1316,10 +1333,12 @@ def session_checks(bp, m, cx, case, rng, ve):
         if how[0] == "remove_leaf":
             leaf = how[1]
             m.remove_node(names[leaf])
-            joint2 = {}
-            for asg, p in cx.joint.items():
-                k2 = tuple(x if i != leaf else 0 for i, x in enumerate(asg))
-                joint2[k2] = joint2.get(k2, Fraction(0)) + p
+            # the edited model is the network WITHOUT the leaf's CPD (not the old joint with the leaf summed out:
+            # the two differ when the CPD's columns are not exactly normalised)
+            c_rm = dict(case)
+            c_rm["factors"] = [f for f in case["factors"] if f["scope"][0] != leaf]
+            c_rm["cards"] = [1 if i == leaf else c for i, c in enumerate(cards)]
+            joint2 = brute_joint(c_rm)
             cx2 = Ctx()
             cx2.__dict__.update(cx.__dict__)
             cx2.joint = joint2
@@ -1524,6 +1543,7 @@ def run_model_case(case, drv):
     cx.joint = brute_joint(case)
     cx.key, cx.tags, cx.rip, cx.drv = key, tags, rip, drv
     cx.sloppy = bool(case.get("sloppy"))
+    cx.lite = bool(case.get("long"))
     if cx.sloppy:
         tags.append("CPD columns typed with two decimals (sums 0.99..1.01)")
     if case.get("long"):
